@@ -478,6 +478,26 @@ def findTbr (w : World) (me : Pid) (R : Rcv) (cond : Bool → Bool → Bool) : L
     | none => some (n, k)
     | some (d, b) => if cond d b then some (n, k) else findTbr w me R cond r (n + 1)
 
+/-- `prepare_connection_removal`, the expired-connection buffer is full: look for a connection that can go -/
+def rcvMakeRoom (w : World) (me : Pid) (R : Rcv) (hasBorrows : Bool) : World :=
+  match findTbr w me R (fun d b => !(d || b)) R.tbr 0 with
+  | some (i, k) => rcvDropConn (setRcv w me { R with tbr := R.tbr.eraseIdx i }) me k
+  | none =>
+    if hasBorrows then
+      match findTbr w me R (fun _ b => !b) R.tbr 0 with
+      | some (i, k) => rcvDropConn (setRcv w me { R with tbr := R.tbr.eraseIdx i }) me k
+      | none => w
+    else w
+
+/-- `prepare_connection_removal`: the second `push` into the expired-connection buffer -/
+def rcvPushTbr (w : World) (me : Pid) (key : Nat) (hasBorrows : Bool) : World :=
+  match getRcv w me with
+  | none => w
+  | some R =>
+    if R.tbr.length < R.tbrCap then setRcv w me { R with tbr := R.tbr ++ [key] }
+    else if hasBorrows then { w with panicked := true }
+    else rcvDropConn w me key
+
 /-- `Receiver::prepare_connection_removal` -/
 def rcvPrepareRemoval (w : World) (me : Pid) (slot : Nat) : World :=
   match getRcv w me with
@@ -491,23 +511,7 @@ def rcvPrepareRemoval (w : World) (me : Pid) (slot : Nat) : World :=
       | some (hasData, hasBorrows) =>
         if hasData || hasBorrows then
           if R.tbr.length < R.tbrCap then setRcv w me { R with tbr := R.tbr ++ [key] }
-          else
-            -- expired connection buffer exceeded
-            let w :=
-              match findTbr w me R (fun d b => !(d || b)) R.tbr 0 with
-              | some (i, k) => rcvDropConn (setRcv w me { R with tbr := R.tbr.eraseIdx i }) me k
-              | none =>
-                if hasBorrows then
-                  match findTbr w me R (fun _ b => !b) R.tbr 0 with
-                  | some (i, k) => rcvDropConn (setRcv w me { R with tbr := R.tbr.eraseIdx i }) me k
-                  | none => w
-                else w
-            match getRcv w me with
-            | none => w
-            | some R =>
-              if R.tbr.length < R.tbrCap then setRcv w me { R with tbr := R.tbr ++ [key] }
-              else if hasBorrows then { w with panicked := true }
-              else rcvDropConn w me key
+          else rcvPushTbr (rcvMakeRoom w me R hasBorrows) me key hasBorrows
         else rcvDropConn w me key
 
 /-- `Receiver::create` (`Connection::new`: `create_receiver`); `n` = the sender's number of chunks -/
